@@ -76,7 +76,7 @@ def _statement_end(src, p):
         c = src[q]
         if c in "\"'":
             q = _string_end(src, q)
-        elif c == "{" and re.search(r"(\)|\bconst|\bnoexcept|\boverride)\s*$", src[p:q]):
+        elif c == "{" and re.search(r"(\)|\bconst|\bnoexcept|\boverride|\})\s*$", src[p:q]):
             q = _partner(src, q) + 1              # a function body: the definition ends here unless an expression goes on (a lambda)
             r = _skip(src, q)
             if r >= len(src) or src[r] not in ";,).([":
